@@ -8,7 +8,7 @@
 //verif:hook p2p/protocol/identify filterAddrs
 //verif:replace github.com/multiformats/go-multiaddr.NewMultiaddrBytes vC13addrFromBytes
 //verif:obligation C13.a consumeSignedPeerRecord uses a signed record's addresses only if the envelope's key hashes to the connection's authenticated peer AND the record names that peer; consumeReceivedPubKey stores a key only under the connection's remote peer and only if it hashes to that peer's ID
-//verif:obligation C13.b consumeMessage: every peerstore write (protocols, addresses, TTL updates, metadata, key) is keyed by the connection's authenticated remote peer, whatever the message contains; at most 1024 protocols and 500 addresses are retained; addresses get the connected TTL iff a connection to the peer exists at that moment, decided while holding the address lock (so a concurrent last disconnect cannot slip in between), otherwise the finite recently-connected TTL; an invalid or foreign signed record is not used and not published
+//verif:obligation C13.b consumeMessage: every peerstore write (protocols, addresses, TTL updates, metadata, key) is keyed by the connection's authenticated remote peer, whatever the message contains; at most 1024 protocols and 500 addresses are retained, whether the addresses come from the listen-address field or from a signed record; addresses get the connected TTL iff a connection to the peer exists at that moment, decided while holding the address lock (so a concurrent last disconnect cannot slip in between), otherwise the finite recently-connected TTL; an invalid or foreign signed record is not used and not published
 //verif:obligation C13.c netNotifiee.Disconnected: when the last connection closes, under the address lock, connected addresses are downgraded (Connected -> Temp, at most 20 addresses incl. the closed connection's own re-added as RecentlyConnected, Temp dropped); while another connection exists nothing is downgraded
 //verif:bound messages with 0 / 1024 / 1026 protocols and 0 / 500 / 502 listen addresses, signed record present or not with every validation outcome; 0 / 20 / 25 stored addresses at disconnect
 //verif:stub host / peerstore / network / connection / emitter stubs logging every write; record.ConsumeEnvelope, Envelope.Record, crypto.UnmarshalPublicKey, peer.IDFromPublicKey hooked with symbolic outcomes (idealised crypto); filterAddrs hooked to the identity (address-class filtering outside); multiaddrs are atoms in the symbolic run
@@ -165,12 +165,19 @@ func vC13hooks(keyID, recID peer.ID, recMode int) {
 		case 1:
 			return nil, errors.New("bad payload")
 		}
-		return &peer.PeerRecord{PeerID: recID, Addrs: []ma.Multiaddr{vC13addr(900), vC13addr(901)}}, nil
+		rec := &peer.PeerRecord{PeerID: recID}
+		for i := 0; i < vC13recAddrs; i++ {
+			rec.Addrs = append(rec.Addrs, vC13addr(900+i))
+		}
+		return rec, nil
 	}
 	VerifHook_filterAddrs = func(a []ma.Multiaddr, r ma.Multiaddr) []ma.Multiaddr { return a }
 }
 
+var vC13recAddrs = 2 // addresses carried by the signed record
+
 func vC13unhook() {
+	vC13recAddrs = 2
 	peer.VerifHook_IDFromPublicKey, record.VerifHook_Envelope_Record, record.VerifHook_ConsumeEnvelope = nil, nil, nil
 	crypto.VerifHook_UnmarshalPublicKey, VerifHook_filterAddrs = nil, nil
 }
@@ -253,6 +260,10 @@ func VerifC13bConsumeMessage() {
 		}
 	}
 	signed := vCase(3) // 0 none, 1 validates, 2 fails validation
+	if signed == 1 && vBool() {
+		vC13recAddrs = connectedPeerMaxAddrs + 2 // a signed record listing more addresses than may be kept
+		vCover("oversized-signed-record")
+	}
 	if signed > 0 {
 		mes.SignedPeerRecord = []byte("envelope")
 	}
@@ -284,7 +295,7 @@ func VerifC13bConsumeMessage() {
 	}
 	if recordOK {
 		vCover("signed-record-used")
-		vAssert(ps.addAddrs[0] == 2, "a valid signed record's addresses replace the unsigned ones")
+		vAssert(ps.addAddrs[0] == min(vC13recAddrs, connectedPeerMaxAddrs), "a valid signed record's addresses replace the unsigned ones, capped like them")
 	}
 	if signed != 1 {
 		vAssert(ps.addAddrs[0] == na || (na > connectedPeerMaxAddrs && ps.addAddrs[0] == connectedPeerMaxAddrs), "without a signed record the listen addresses are used")
